@@ -13,6 +13,7 @@ From ADV Require Import C04.Model2 C04.ProofsBuf C06.Model32 C06.ModelBuf C06.Pa
 From ADV Require C06.ProofsDetN.
 From ADV Require Import C06.ModelOpt C06.ParamT3 C06.ProofsOpt C06.ProofsOptBuf.
 From ADV Require Import C06.ModelHelp C06.ProofsHelp.
+From ADV Require Import C06.ModelView C06.ProofsView.
 Import ListNotations.
 Open Scope R_scope.
 
@@ -603,6 +604,89 @@ Example sparse_helper_recycled_receiver_binary64 :
     = HOk [[12; 0]]%float [ms_plain 6%float; ms_plain 5%float].
 Proof. exact sparse_recycled_witness. Qed.
 
+(* ---- round 7: dense products on VIEWS of backing arrays (ModelView.v: DenseReal64Matrix.index / SLICE / MagicT /
+   storageLocation and the two loops of MdotM / MDOTM written against ONE memory, in the order of the Go loops).
+   Every carrier (reals, binary64, jets: the entries are magic scalars with their derivatives). *)
+Close Scope R_scope.
+Open Scope nat_scope.
+
+(* (g1) a transposed view reads the transposed entries; a slice reads the shifted entries *)
+Theorem view_transpose_index : forall v i j, vidx (vT v) i j = vidx v j i.
+Proof. exact vidx_T. Qed.
+Theorem view_slice_index : forall v rf rt cf ct i j, vidx (vslice v rf rt cf ct) i j = vidx v (rf + i) (cf + j).
+Proof. exact vidx_slice. Qed.
+
+(* (g2) the accumulation of the memory model is the entry of the pure product p_mdotm is about
+   (matrix_product_derivatives), taken of the operand views read as matrices - transposed / sliced or not *)
+Theorem view_product_entry : forall {A} (N : Num A) (S : list A) (va vb : view) i j,
+  vrows vb = vcols va -> i < vrows va -> j < vcols vb ->
+  nth j (nth i (mdotm N (vcols va) (vcols vb) (vread N S va) (vread N S vb)) []) (zero N) = vdot N S va vb (vcols va) i j.
+Proof. exact @vdot_pure. Qed.
+
+(* (g3) the buffered loop (result and right operand in the SAME array, storageLocation equal): if the left operand
+   does not meet the receiver and no entry of column j of the right operand is a receiver cell of an earlier column
+   (the same view; slices of one array at different ROW offsets, overlapping or not; ...), the receiver view holds
+   the product of the operands AS THEY WERE BEFORE THE CALL and no other cell of the memory changes *)
+Theorem mdotm_views_same_array : forall {A} (N : Num A) (S : list A) (va vb vr : view),
+  let n := vrows vr in let m := vcols vr in let m1 := vcols va in
+  vrows va = n -> vcols vb = m -> vrows vb = m1 -> vbase vr = vbase vb ->
+  (forall i j, i < n -> j < m -> vidx vr i j < length S) ->
+  (forall i j i' j', i < n -> j < m -> i' < n -> j' < m -> vidx vr i j = vidx vr i' j' -> i = i' /\ j = j') ->
+  (forall i k i' j', i < n -> k < m1 -> i' < n -> j' < m -> vidx va i k <> vidx vr i' j') ->
+  (forall k j i' j', k < m1 -> j < m -> i' < n -> j' < j -> vidx vb k j <> vidx vr i' j') ->
+  exists S', mdotm_store N S va vb vr = Some S' /\ length S' = length S /\
+    (forall i j, i < n -> j < m -> sget N S' vr i j = vdot N S va vb m1 i j) /\
+    (forall p, (forall i j, i < n -> j < m -> vidx vr i j <> p) -> nth p S' (zero N) = nth p S (zero N)).
+Proof. exact @mdotm_store_buffered. Qed.
+
+(* (g4) the row loop (different arrays): the right operand does not meet the receiver, row i of the left operand is
+   not a receiver cell of an earlier row (r = a, the same view, included) *)
+Theorem mdotm_views_other_array : forall {A} (N : Num A) (S : list A) (va vb vr : view),
+  let n := vrows vr in let m := vcols vr in let m1 := vcols va in
+  vrows va = n -> vcols vb = m -> vrows vb = m1 -> vbase vr <> vbase vb ->
+  (forall i j, i < n -> j < m -> vidx vr i j < length S) ->
+  (forall i j i' j', i < n -> j < m -> i' < n -> j' < m -> vidx vr i j = vidx vr i' j' -> i = i' /\ j = j') ->
+  (forall i k i' j', i < n -> k < m1 -> i' < i -> j' < m -> vidx va i k <> vidx vr i' j') ->
+  (forall k j i' j', k < m1 -> j < m -> i' < n -> j' < m -> vidx vb k j <> vidx vr i' j') ->
+  exists S', mdotm_store N S va vb vr = Some S' /\ length S' = length S /\
+    (forall i j, i < n -> j < m -> sget N S' vr i j = vdot N S va vb m1 i j) /\
+    (forall p, (forall i j, i < n -> j < m -> vidx vr i j <> p) -> nth p S' (zero N) = nth p S (zero N)).
+Proof. exact @mdotm_store_rows. Qed.
+
+(* (g5) r.MdotM(a, r): result and right operand the same view *)
+Theorem mdotm_views_inplace_right : forall {A} (N : Num A) (S : list A) (va vr : view),
+  let n := vrows vr in let m := vcols vr in
+  vrows va = n -> vcols va = n ->
+  (forall i j, i < n -> j < m -> vidx vr i j < length S) ->
+  (forall i j i' j', i < n -> j < m -> i' < n -> j' < m -> vidx vr i j = vidx vr i' j' -> i = i' /\ j = j') ->
+  (forall i k i' j', i < n -> k < n -> i' < n -> j' < m -> vidx va i k <> vidx vr i' j') ->
+  exists S', mdotm_store N S va vr vr = Some S' /\ length S' = length S /\
+    (forall i j, i < n -> j < m -> sget N S' vr i j = vdot N S va vr n i j) /\
+    (forall p, (forall i j, i < n -> j < m -> vidx vr i j <> p) -> nth p S' (zero N) = nth p S (zero N)).
+Proof. exact @mdotm_store_inplace_right. Qed.
+
+(* non-vacuity of (g3): receiver = rows 1..2, right operand = rows 0..1 of one 4 x 2 array (overlapping in row 1),
+   left operand a transposed view of another array: the buffered loop leaves the product (the row loop would not) *)
+Example mdotm_views_overlap_example :
+  let S := [1; 2; 3; 4; 5; 6; 7; 8; 1; 0; 2; 1; 0; 3]%Z in
+  let va := mkView 8 0 0 2 2 2 3 true in let vb := mkView 0 0 0 2 2 4 2 false in let vr := mkView 0 1 0 2 2 4 2 false in
+  mdotm_store NumZ S va vb vr = Some [1; 2; 7; 10; 3; 4; 7; 8; 1; 0; 2; 1; 0; 3]%Z /\
+  vread NumZ S va = [[1; 2]; [0; 1]]%Z /\
+  mdotm NumZ 2 2 (vread NumZ S va) (vread NumZ S vb) = [[7; 10]; [3; 4]]%Z.
+Proof. exact buffered_overlap_example. Qed.
+
+(* (g6) KNOWN FINDING F-C06-MDOTM-SLICE-ALIAS (HEAD): the hypotheses of (g4) EXCEPT "different arrays" do not suffice -
+   r.MdotM(r, b) with b a disjoint slice of the array r is a slice of goes through the column loop (equal storage
+   location), which protects b only: row 0 of [1 2; 3 4; 5 6] times rows 1..2 is (13, 16), the loop leaves (13, 64) *)
+Theorem mdotm_views_left_alias_same_array_refuted :
+  let S := [1; 2; 3; 4; 5; 6]%Z in
+  let va := mkView 0 0 0 1 2 3 2 false in let vb := mkView 0 1 0 2 2 3 2 false in
+  mdotm_store NumZ S va vb va = Some [13; 64; 3; 4; 5; 6]%Z /\
+  map (fun j => vdot NumZ S va vb 2 0 j) [0; 1] = [13; 16]%Z /\
+  (forall i k i' j', i < 1 -> k < 2 -> i' < i -> j' < 2 -> vidx va i k <> vidx va i' j') /\
+  (forall k j i' j', k < 2 -> j < 2 -> i' < 1 -> j' < 2 -> vidx vb k j <> vidx va i' j').
+Proof. exact mdotm_left_alias_witness. Qed.
+
 (* Not proved (stated for the record):
    inverse_3x3_values_partial - that the straight-line programs inv3_E_ne / inv3_E_ex evaluate to the entries of the
      inverse is not proved symbolically (2x2: proved); the general theorem all_routines_derivatives + the bit-exact
@@ -614,5 +698,9 @@ Proof. exact sparse_recycled_witness. Qed.
      replayed against Go on the same rows (Corr.KO).
    recycled Gram-Schmidt / Hessenberg / tri-/bidiagonalisation buffers: tie only (Go's recycled run = the
      fresh model term), no buffer-taking model.
+   view_products_partial - (g3)-(g5) are about MdotM / MDOTM; the vector products on views (mdotv_store / vdotm_store:
+     MdotV / MDOTV / VdotM / VDOTM accumulate in the receiver entry directly) are modelled and replayed, not proved;
+     result and right operand overlapping at different COLUMN offsets: modelled and replayed, no theorem (the code
+     does not compute the product there).
    helpers_arbitrary_closure_partial - the helper theorems quantify over supplied functions given by expressions
      (+ - * / neg sqrt log over the argument entries and integer constants); an arbitrary Go closure is outside. *)
